@@ -720,10 +720,10 @@ def ad_plans(prop, quick):
                 ("GSpecTxn", "sim", ad_base(StageKinds=K, Depth=40, Caps={1, 2, 16}, InitLens={0, 1, 3, 5, 7}, MaxLen=9,
                                             PipeFlavs=both), sim_n(500, 6000))]
     if prop == "C12":
-        return [big(ALL_KINDS, NStages={2}, SelfObs={0, 1}), ("GSpecCore", "tree", ad_base(StageKinds=ALL_KINDS, NStages={2}, Depth=3, InitLens={3}, Modes={"dyn", "static"},
-                                              Params={2}, SelfObs={0, 1}, MaxLen=5, CoreSet="lean"), 0),
+        return [big(ALL_KINDS, NStages={2}, SelfObs={0, 1, 2}), ("GSpecCore", "tree", ad_base(StageKinds=ALL_KINDS, NStages={2}, Depth=3, InitLens={3}, Modes={"dyn", "static"},
+                                              Params={2}, SelfObs={0, 1, 2}, MaxLen=5, CoreSet="lean"), 0),
                 ("GSpecTxn", "sim", ad_base(StageKinds=ALL_KINDS, NStages={2, 3}, Depth=30, Caps={2, 16}, InitLens={0, 2, 4, 6},
-                                            Params={0, 1, 2, 4}, MaxLen=8, SelfObs={0, 1}, PipeFlavs=both),
+                                            Params={0, 1, 2, 4}, MaxLen=8, SelfObs={0, 1, 2}, PipeFlavs=both),
                  sim_n(1500, 10000))]
     if prop == "C13":
         fixed = dict(Modes={"static"}, PipeFlavs={"twin", "batched"})
